@@ -77,6 +77,19 @@ pub fn gen_cases(prop: &str, seed: u64, n: u64, out: &str) {
                 }
             }
         }
+        let repeat = prop == "C03" && r.chance(1, 5) && q.questions[0].qclass == 1;
+        let mut repeat_gap = 1.3;
+        if repeat && r.chance(2, 3) && !up.answer.is_empty() && (!up.authority.is_empty() || !up.additional.is_empty()) {
+            repeat_gap = 2.3; // that record is then more than a whole second past its end
+            // long-lived answers next to one authority/additional record that lives for a single second: the repeat (2.3 s
+            // later) must not be served from an entry in which that record has run out
+            for rr in up.answer.iter_mut() {
+                rr.ttl = rr.ttl.max(60);
+            }
+            if let Some(rr) = up.authority.last_mut().or(up.additional.last_mut()) {
+                rr.ttl = 1;
+            }
+        }
         let mode = match r.below(3) {
             0 => rn::Compress::None,
             1 => rn::Compress::Full,
@@ -87,7 +100,6 @@ pub fn gen_cases(prop: &str, seed: u64, n: u64, out: &str) {
             continue;
         }
         let qb = rn::encode(&q, rn::Compress::None);
-        let repeat = prop == "C03" && r.chance(1, 10) && q.questions[0].qclass == 1;
         // what the upstream sends over UDP when the full reply exceeds erbium's advertised 4096: TC set and either nothing
         // or (as most servers do) the whole records that still fit
         let mut upstream_udp: Option<Vec<u8>> = None;
@@ -111,7 +123,7 @@ pub fn gen_cases(prop: &str, seed: u64, n: u64, out: &str) {
                 "upstream_hex": hex(&ub),
                 "transport": transport,
                 "advertised": q.opt.as_ref().map(|o| o.udp_size),
-                "repeat_after_s": if repeat { Some(1.3) } else if second.is_some() { Some(0.3) } else { None },
+                "repeat_after_s": if repeat { Some(repeat_gap) } else if second.is_some() { Some(0.3) } else { None },
                 "repeat_transport": second,
                 "upstream_udp_hex": upstream_udp.as_ref().map(|b| hex(b)),
                 // an upstream that truncates over UDP and then hangs up on the TCP retry: no full answer can be had
